@@ -4,6 +4,10 @@
 
 usage: gen_select_cases.py <seed> <count> [--no-exhaustive]        (cases on stdout)
 
+Harness output per case: <header> TAB <direct children> TAB <md5 of text> TAB <flag>; flag M = the
+OCaml driver prints the identical line (compare), flag O = oracle-only (driver prints - - - O):
+require header = direct children only.
+
 Case syntax: /verif/harness/cmd/selectcount/main.go  (<kind> TAB <arg> TAB <items>; a select is
 25 digits:  0 With 1 DistinctOn 2 Top 3 Columns 4 From 5 ArrayJoin 6 PreWhere 7 Where 8 GroupBy
 9 GroupByAll 10 GroupingSets 11 Having 12 Qualify 13 Window 14 OrderBy 15 Interpolate 16 Limit
@@ -35,13 +39,21 @@ block / case index, so a line replays alone):
  E6  8192 `C` cases (union nested in CREATE VIEW; Format on the CreateQuery or not): ALL 2^13
      combinations of CreateQuery.Format set, the three union flags, the four fields for each of
      two members, With on the first.
+ E7  65536 `W` cases: the same 2^16 presence combinations as E1 for a SelectQuery printed by
+     explainSelectQueryWithInheritedWith (second member of a union whose first member has WITH),
+     and 8192 random `V` cases (the same printer reached through INSERT with WITH).
+ E8  39366 cases, kinds `S` and `W`: ALL 3^9 combinations of {nil, present-but-empty (letter e),
+     non-empty} for the 9 slice-typed fields With DistinctOn Columns GroupBy Window OrderBy
+     Interpolate LimitBy Settings, the other fields random (ArrayJoin with an empty Columns slice
+     now and then).  A case containing an `e` is ORACLE-ONLY (flag O in the harness output): the
+     Coq model cannot tell nil from empty, so only header = direct children is required of it.
  R   <count> random `S`, <count>/2 random `U`, <count>/4 random `I` and <count>/4 random `N`,
      `X`, `C` cases each over all 25 fields
      (each optional field present with probability 1/2, list lengths 0..3, From in
      {nil, 1..3 tables, non-nil without tables}, Columns 0 with probability 1/16), then further random
      `S` cases until every combination of presence/absence of every 3 of the 25 fields has
      occurred (3-wise coverage; 18400 triples x 8 patterns).
---no-exhaustive drops E1..E6 (quick tier).
+--no-exhaustive drops E1..E8 (quick tier).
 """
 import sys
 from itertools import combinations
@@ -72,6 +84,9 @@ class Rng:
 
     def bit(self):
         return self.next() & 1
+
+    def pick3(self):
+        return ("S", "W", "V")[self.next() % 3]
 
 
 NF = 25
@@ -217,6 +232,42 @@ def random_items(rng):
     return ";".join(items)
 
 
+SLICE_FIELDS = [0, 1, 3, 8, 13, 14, 15, 17, 21]
+
+
+def emit_e7(seed, out):
+    for mask in range(1 << len(E1_FIELDS)):
+        rng = Rng(seed, 13, mask)
+        d = random_select(rng)
+        if d[3] == 0:
+            d[3] = 1
+        if d[4] == 9:
+            d[4] = 1
+        for j, f in enumerate(E1_FIELDS):
+            d[f] = present_digit(f, rng) if (mask >> j) & 1 else 0
+        out.append("W\t%d\t%s" % (1 + rng.below(2), fmt(d)))
+    for i in range(8192):
+        rng = Rng(seed, 14, i)
+        out.append("V\t%d\t%s" % (1 + rng.below(2), fmt(random_select(rng))))
+
+
+def emit_e8(seed, out):
+    n = len(SLICE_FIELDS)
+    for code in range(3 ** n):
+        for kind in ("S", "W"):
+            rng = Rng(seed, 15, code, ord(kind))
+            d = [str(x) for x in random_select(rng, in_model=True)]
+            c = code
+            for f in SLICE_FIELDS:
+                st = c % 3
+                c //= 3
+                d[f] = "0" if st == 0 else ("e" if st == 1 else str(1 + rng.below(3)))
+            if rng.below(6) == 0:
+                d[5] = "e"
+            spec = "".join(d)
+            out.append("%s\t%s\t%s" % (kind, "-" if kind == "S" else str(1 + rng.below(2)), spec))
+
+
 def emit_random(seed, count, out):
     covered = set()
     triples = list(combinations(range(NF), 3))
@@ -258,6 +309,14 @@ def emit_random(seed, count, out):
         out.append("X\t%d%d%d\t%s" % (rng.bit(), rng.bit(), rng.below(3), random_items(rng)))
         rng = Rng(seed, 12, i)
         out.append("C\t%d%d%d%d\t%s" % (rng.bit(), rng.bit(), rng.bit(), rng.below(3), random_items(rng)))
+    for i in range(count // 2):
+        rng = Rng(seed, 16, i)
+        d = [str(x) for x in random_select(rng)]
+        for f in SLICE_FIELDS + [5]:
+            if rng.below(5) == 0:
+                d[f] = "e"
+        k = rng.pick3()
+        out.append("%s\t%s\t%s" % (k, "-" if k == "S" else str(1 + rng.below(2)), "".join(d)))
     i = 0
     while len(covered) < total:
         d = random_select(Rng(seed, 6, i))
@@ -287,6 +346,8 @@ def main():
         emit_e4(seed, out)
         emit_e5(seed, out)
         emit_e6(seed, out)
+        emit_e7(seed, out)
+        emit_e8(seed, out)
     emit_random(seed, count, out)
     sys.stdout.write("\n".join(out) + "\n")
 
